@@ -43,7 +43,7 @@ TECHNIQUE = {
     "C16": "case table of fuse_two_phases by abstract interpretation over uninterpreted terms; static def-use flow and field-coverage analysis of fusion and map_expressions",
     "C17": "static guarded-operation / dominance rules over the unifier extension and match front end",
     "C18": "static push/pop balance analysis of the constant classifier against pymbolic's handler table, plus pairing rules",
-    "C20": "static path enumeration over the wrapper loop with boolean-flag sensitivity (token conservation, pad discipline)",
+    "C20": "static path enumeration over the wrapper loop with boolean-flag sensitivity (token conservation, pad discipline); tokeniser loop abstractly interpreted into a finite automaton and searched in product with the literal automaton",
 }
 
 DESIGN_REF = {pid: f"DESIGN.md section 4, {pid}" for pid in TECHNIQUE}
